@@ -467,3 +467,33 @@ theorem finish_slot (s : LState) (ns p : Bytes) (origin : Nat) (res : Option (Na
       cases r <;> simp [nodeOf, Coord.Node.finish, Coord.Node.startConnect]
 
 end Live
+
+namespace Live
+
+/-- `leave` that fails half-way (a store call fails because the replica was closed behind the live actor's
+back): the document has left the coordination state, the reply is an error, and neither the gossip topic
+nor the subscribers have been touched — the `?` returns before `gossip.quit` and `subscribers.remove` -/
+theorem leave_half_way (s : LState) (ns : Bytes) (kill : Bool) (h : s.syncing ns = true) :
+    let r := step s (.leave ns kill false)
+    r.2 = [.reply false] ∧ r.1.syncing ns = false ∧ r.1.topics = s.topics ∧ r.1.subs = s.subs := by
+  simp only [step, h, if_true, Bool.false_eq_true, if_false]
+  refine ⟨trivial, ?_, trivial, trivial⟩
+  simp only [LState.syncing, LState.doc?]
+  cases hf : (s.docs.filter (·.ns != ns)).find? (·.ns == ns) with
+  | none => rfl
+  | some d =>
+    have hm := List.mem_of_find?_eq_some hf
+    have hp := List.find?_some hf
+    have := (List.mem_filter.mp hm).2
+    simp only [bne_iff_ne, ne_eq] at this
+    exact absurd (by simpa using hp) this
+
+/-- a `leave` whose store calls succeed quits the topic and, if asked to, drops the subscribers -/
+theorem leave_complete (s : LState) (ns : Bytes) (h : s.syncing ns = true) :
+    (step s (.leave ns true true)).1.topics = s.topics.filter (· != ns) ∧
+    (step s (.leave ns true true)).1.subs = s.subs.filter (·.1 != ns) ∧
+    (step s (.leave ns true true)).2 = [.reply true] := by
+  simp only [step, h, if_true]
+  exact ⟨trivial, trivial, trivial⟩
+
+end Live
